@@ -7,11 +7,21 @@ SPEC = {
     "level_note": "see DESIGN.md §6",
     "overlays": PC.OVERLAYS + [{"src": "C18/kani_c18.rs", "dest": "src/consensus/pool/kani_c18.rs", "decl_in": PC.POOL, "decl": "mod kani_c18;"},
                                {"src": "C04/kani_c04_pool.rs", "dest": "src/consensus/pool/kani_c04_pool.rs", "decl_in": PC.POOL, "decl": "mod kani_c04_pool;"}],
-    "redirects": PC.REDIRECTS,
+    # std Vec in pool.rs (the certificate / vote lists of the standstill bundle) -> typed contiguous stand-in: through the
+    # untyped heap block behind a std Vec the variant of each collected Cert is symbolic to CBMC's symbolic execution
+    "redirects": [{"file": PC.POOL, "pattern": r"^use std::ops::RangeBounds;$", "replacement": "use std::ops::RangeBounds;\n#[cfg(kani)]\nuse crate::verif_coll::tvec::{Vec, vec};", "count": 1, "required": True},
+                  # the per-validator vote tables of slot_state.rs likewise (as in C03)
+                  {"file": PC.SS, "pattern": r"^use std::sync::Arc;$", "replacement": "use std::sync::Arc;\n#[cfg(kani)]\nuse crate::verif_coll::tvec::{Vec, vec};", "count": 1, "required": True}] + PC.REDIRECTS,
     "coll_cap": 4,
     "functions": ["PoolImpl::recover_from_standstill", "PoolImpl::get_final_certs", "PoolImpl::get_certs", "PoolImpl::get_own_votes", "PoolImpl::finalized_slot", "FinalityTracker::mark_*"],
     "bounds": "", "explanation": "", "assumptions": PC.ASSUMPTIONS, "trusted_base": [], "outside": [],
-    "harnesses": [{"name": "c18_bundle", "path": MOD, "tiers": ["quick", "thorough"], "role": "standstill bundle", "stubs": [PC.SIGN_STUB, "log::max_level"], "covers": 3,
-                   "timeout": {"quick": 900, "thorough": 1800}, "mem_gb": 14, "cbmc_args": PC.CBMC}],
+    "harnesses": [{"name": n, "path": MOD, "tiers": t, "role": "standstill bundle/" + d, "stubs": [PC.SIGN_STUB, "log::max_level"], "covers": 1,
+                   "timeout": {"quick": 900, "thorough": 1800}, "mem_gb": 14, "cbmc_args": PC.CBMC,
+                   "functions": ["PoolImpl::recover_from_standstill", "PoolImpl::{get_final_certs,get_certs,get_own_votes,finalized_slot,slot_state}", "FinalityTracker::{mark_notarized,mark_finalized,mark_fast_finalized,highest_finalized_slot}"],
+                   "bounds": "2 validators; certificates held: " + d}
+                  for (n, t, d) in [("c18_bundle_empty", ["quick", "thorough"], "none (fresh pool)"),
+                                    ("c18_bundle_genesis", ["quick", "thorough"], "slot 1: finalization only (nothing finalized); slot 2: notarization + own skip vote"),
+                                    ("c18_bundle_fast", ["quick", "thorough"], "slot 1: fast-finalization + notarization; slot 2: notarization, skip, own skip vote"),
+                                    ("c18_bundle_slow", ["thorough"], "slot 1: finalization + notarization; slot 2: skip")]],
     "unclaimed": True,
 }
